@@ -221,7 +221,7 @@ fn finish(o: &Opts, prop: &str, mut rep: Report, cases: Vec<String>) -> Report {
     rep
 }
 
-fn value_stream(rng: &mut Rng, fm: &Fm, n: usize, thorough: bool) -> Vec<Narsese> {
+pub fn value_stream(rng: &mut Rng, fm: &Fm, n: usize, thorough: bool) -> Vec<Narsese> {
     let g = term_gen_for(fm, if thorough { 6 } else { 4 }, if thorough { 5 } else { 4 });
     let mut out = vec![];
     // prefixed atoms with numeric names as whole terms / bare judgements (back-off between budget bracket and variable prefix)
